@@ -533,6 +533,44 @@ func c08(r *core.Run) {
 				}
 			}
 		}
+		// what the apply handler returned is handed to the listeners as it is: the event method does
+		// not write into the returned map / slice (filling in "missing" old values invents properties
+		// the handler never reported, and changes the handler's own value behind its back)
+		if len(m.A) == 1 && m.A[0].Value() != nil {
+			fromApply := func(v ssa.Value) bool {
+				for _, src := range phiSources(v) {
+					if ex, ok := core.Strip(src.V).(*ssa.Extract); ok && ex.Tuple == m.A[0].Value() {
+						return true
+					}
+					if src.V == m.A[0].Value() {
+						return true
+					}
+				}
+				return false
+			}
+			modified := ""
+			for _, f2 := range m.scope {
+				for _, f3 := range withAnon(f2) {
+					for _, in := range instrsOf(f3) {
+						switch x := in.(type) {
+						case *ssa.MapUpdate:
+							if fromApply(x.Map) {
+								modified = p.InstrPos(x)
+							}
+						case *ssa.Store:
+							if ia, ok := x.Addr.(*ssa.IndexAddr); ok && fromApply(ia.X) {
+								modified = p.InstrPos(x)
+							}
+						case *ssa.Call:
+							if core.CalleeName(x) == "builtin:delete" && len(x.Call.Args) > 0 && fromApply(x.Call.Args[0]) {
+								modified = p.InstrPos(x)
+							}
+						}
+					}
+				}
+			}
+			r.Check(modified == "", "O5", fname, "apply-result-handed-on-unmodified", p.Pos(fn.Pos()), "the value the apply handler returned is not written to", "the event method writes into the value its apply handler returned (at "+modified+"): the listeners are told old values the handler did not report - a property that existed and was not touched is presented as new -, and the handler's own map is changed under it")
+		}
 		// ---- O4 ----
 		c08Validity(r, "O4", m)
 		// ---- O5 ----
